@@ -151,6 +151,18 @@ def run(ctx):
                      "ex": [x for x, _ in ex]})
 
     obs, summ, errs = wc.run_driver(ctx, "c12", jobs, timeout=3000)
+    # SELECTs prepared and executed at once, at a listed consistency: forwarded unmodified (SelectUntouched) however soon the
+    # EXECUTE follows its PREPARE
+    ra = ctx.notes.get("right_after_prepare") or []
+    tot_sent = sum(x["sent"] for x in ra)
+    tot_alt = sum(x["altered"] for x in ra)
+    for x in ra:
+        if x["altered"]:
+            ctx.violation("c12:altered-without-override:op=EXECUTE,sel=prepared-select-executed-right-after-prepare",
+                          "%d of %d prepared SELECTs executed immediately after their PREPARE (consistency %s, which is in the list) reached the backend "
+                          "with another consistency" % (tot_alt, tot_sent, x["cons"]), replay=x)
+            break
+    ctx.notes["right_after_prepare"] = {"executed": tot_sent, "altered": tot_alt, "errors": [x["err"] for x in ra if x.get("err")][:3]}
     if errs:
         raise core.Inconclusive("driver jobs failed: %s" % "; ".join(errs[:5]))
     missing = [k for k in plan if k not in obs]
